@@ -256,8 +256,8 @@ func init() {
 	// R-MODEPROP: the getter of pooled per-search state copies the engine's match mode into the state on every path.
 	core.Register(&core.Rule{
 		Name: "R-MODEPROP",
-		Doc: "Mode propagation into recycled state: in the wrapper that hands out pooled per-search state (getSearchState), every assignment of the engine's mode flag into a component of the state (a store of a value loaded from a boolean field of the receiver, or a setter call with such a value) must be reached on every path from the function entry to return that does not go through a nil test of that component - in particular it may not be confined to the 'fresh from the pool' branch, because the single-slot cache hands back states that were configured before the last Longest() call. Necessary for C10 (every API honours the mode) and C11 (Find and FindSubmatch agree).",
-		Min: 2, NeedSSA: true,
+		Doc: "Mode propagation into recycled state: in the wrapper that hands out pooled per-search state (getSearchState), every assignment of the engine's mode flag into a component of the state (a store of a value loaded from a boolean field of the receiver, or a setter call with such a value) must be reached on every path from the function entry to return that does not go through a nil test of that component - in particular it may not be confined to the 'fresh from the pool' branch, because the single-slot cache hands back states that were configured before the last Longest() call. (b) Engine.SetLongest forwards the mode to every field of the Engine whose type has a SetLongest method of its own (pinned tree: the ASCII-only bounded backtracker was left out, ^(.|..) replaced one byte instead of two in longest mode) => fixed. Necessary for C10 (every API honours the mode) and C11 (Find and FindSubmatch agree).",
+		Min: 5, NeedSSA: true,
 		Run: func(p *core.Prog) *core.RuleResult {
 			res := &core.RuleResult{}
 			pf := computePoolFacts(p)
@@ -323,6 +323,52 @@ func init() {
 						}
 						res.Obligations = append(res.Obligations, o)
 					}
+				}
+			}
+			// (b) the engine's own mode setter reaches every component that has a setter of the same name
+			for _, fn := range p.SrcFuncs() {
+				if fn.Name() != "SetLongest" || fn.Signature.Recv() == nil || !strings.HasSuffix(fn.Signature.Recv().Type().String(), "meta.Engine") || fn.Blocks == nil {
+					continue
+				}
+				st, ok := fn.Signature.Recv().Type().Underlying().(*types.Pointer).Elem().Underlying().(*types.Struct)
+				if !ok {
+					continue
+				}
+				called := map[string]bool{}
+				for _, b := range fn.Blocks {
+					for _, in := range b.Instrs {
+						c, ok := in.(*ssa.Call)
+						if !ok || len(c.Call.Args) == 0 {
+							continue
+						}
+						if cal := c.Call.StaticCallee(); cal != nil && cal.Name() == "SetLongest" {
+							if f := innerField(c.Call.Args[0]); f != nil {
+								called[f.Name()] = true
+							}
+						}
+					}
+				}
+				for i := 0; i < st.NumFields(); i++ {
+					f := st.Field(i)
+					ms := types.NewMethodSet(f.Type())
+					has := false
+					for j := 0; j < ms.Len(); j++ {
+						if ms.At(j).Obj().Name() == "SetLongest" {
+							has = true
+						}
+					}
+					if !has {
+						continue
+					}
+					o := core.Obligation{Key: "R-MODEPROP|" + core.FuncName(fn) + "|reaches component " + f.Name(), Pos: p.Pos(fn.Pos()), Nontrivial: true}
+					if called[f.Name()] {
+						o.Status = core.Discharged
+						o.Detail = "SetLongest is forwarded to e." + f.Name()
+					} else {
+						o.Status = core.Violated
+						o.Detail = "the Engine holds e." + f.Name() + ", whose type has a SetLongest method, but Engine.SetLongest never calls it: searches through that component keep the mode it was built with"
+					}
+					res.Obligations = append(res.Obligations, o)
 				}
 			}
 			return res
